@@ -4,6 +4,7 @@
 extern crate rustc_abi;
 extern crate rustc_ast;
 extern crate rustc_ast_pretty;
+extern crate rustc_const_eval;
 extern crate rustc_driver;
 extern crate rustc_hir;
 extern crate rustc_interface;
@@ -19,7 +20,7 @@ use rustc_middle::mir::{
     self, AggregateKind, BasicBlock, Body, Const, ConstValue, NonDivergingIntrinsic, Operand,
     Place, ProjectionElem, Rvalue, StatementKind, TerminatorKind, UnwindAction,
 };
-use rustc_middle::ty::{self, Ty, TyCtxt, TypingEnv};
+use rustc_middle::ty::{self, Ty, TyCtxt, TypeVisitableExt, TypingEnv};
 use rustc_span::Span;
 use std::fmt::Write;
 
@@ -478,9 +479,25 @@ impl<'tcx> Cx<'tcx> {
                                     rd.is_local()
                                 );
                             }
+                            let mut tnames = String::new();
+                            {
+                                let p = tcx.def_path_str(*cd);
+                                if p == "std::any::type_name_of_val" || p == "std::any::type_name" {
+                                    let v: Vec<String> = ga
+                                        .iter()
+                                        .filter_map(|a| match a.kind() {
+                                            ty::GenericArgKind::Type(t) if !t.has_non_region_param() => {
+                                                Some(esc(&rustc_const_eval::util::type_name(tcx, t)))
+                                            }
+                                            _ => None,
+                                        })
+                                        .collect();
+                                    tnames = format!(",\"type_names\":[{}]", v.join(","));
+                                }
+                            }
                             let sig = tcx.fn_sig(*cd).instantiate(tcx, ga).skip_norm_wip();
                             format!(
-                                "{{\"k\":\"def\",\"path\":{},\"args\":[{}],\"local\":{},\"foreign\":{},\"abi\":{},\"diverges\":{},\"intrinsic\":{},\"resolved\":{}}}",
+                                "{{\"k\":\"def\",\"path\":{},\"args\":[{}],\"local\":{},\"foreign\":{},\"abi\":{},\"diverges\":{},\"intrinsic\":{},\"resolved\":{}{}}}",
                                 esc(&tcx.def_path_str(*cd)),
                                 ga.iter().map(|a| self.garg(a)).collect::<Vec<_>>().join(","),
                                 cd.is_local(),
@@ -488,7 +505,8 @@ impl<'tcx> Cx<'tcx> {
                                 esc(&format!("{}", sig.abi())),
                                 sig.output().skip_binder().is_never(),
                                 tcx.intrinsic(*cd).is_some(),
-                                resolved
+                                resolved,
+                                tnames
                             )
                         }
                         _ => format!("{{\"k\":\"indirect\",\"op\":{},\"ty\":{}}}", self.operand(did, body, func), self.ty(fty)),
